@@ -206,6 +206,10 @@ def cases(tier):
             out.append(Value(l=l, K=2, M=1, where=where))
     for l in range(lmax + 1):
         out.append(Value(l=l, K=2 if l < 3 else 1, M=2 if l < 3 else 1))
+    # order 4 along one axis (the highest Hermite polynomial of the property's range) also in the quick tier
+    if tier == "quick":
+        for l in (0, 1, 2):
+            out.append(Kernel(l=l, K=1, M=1, orders=[[4, 0, 0], [0, 4, 0], [0, 0, 4], [4, 1, 0], [2, 0, 4]]))
     # generally contracted shells with exact zeros in the coefficient matrix
     for backend in ("general", "direct"):
         out.append(Kernel(l=1, K=3, M=2, orders=[[0, 0, 0], [1, 0, 0], [0, 2, 1]], zeros=[[0, 1], [2, 0]], backend=backend))
